@@ -17,8 +17,77 @@ def cond_tol(e, lad):
     return base
 
 
+def deep_copy_twin(ck, e, seed):
+    """a deep copy of a used transform (evaluation mode, caches switched on and filled) is an independent transform: after it
+    received another checkpoint, the copy and the original, called alternately, each still invert themselves, and the original
+    still returns what it returned before the copy existed"""
+    import copy
+    t = attempt(catalogue.build, e, seed)
+    if t[0] != "ok":
+        return
+    t = t[1]
+    t.eval()
+    for m in t.modules():
+        if hasattr(m, "use_cache"):
+            m.use_cache(True)
+    x, ctx = catalogue.sample_inputs(e, 5, seed + 20)
+    case = {"search": "deep-copy-twin", "entry": e["name"], "seed": seed}
+    with torch.no_grad():
+        f0 = attempt(t.forward, x, ctx)
+    if f0[0] != "ok":
+        return
+    c = attempt(copy.deepcopy, t)
+    ck.case(("c02-deepcopy", e["name"]), nontrivial=True)
+    if c[0] != "ok":
+        ck.count("deepcopy-raises:" + c[1])
+        return
+    t2 = c[1]
+    if attempt(t2.load_state_dict, catalogue.perturbed_state(t2, seed + 3))[0] != "ok":
+        return
+    with torch.no_grad():
+        a = attempt(t.forward, x, ctx)
+        b = attempt(t2.forward, x, ctx)
+        if a[0] != "ok" or b[0] != "ok":
+            return
+        bi = attempt(t2.inverse, b[1][0], ctx)
+        ai = attempt(t.inverse, a[1][0], ctx)
+        a2 = attempt(t.forward, x, ctx)
+        # the copy against a never-used instance holding the copy's checkpoint
+        t3 = attempt(catalogue.build, e, seed)
+        if t3[0] == "ok" and attempt(t3[1].load_state_dict, t2.state_dict())[0] == "ok":
+            t3[1].eval()
+            b3 = attempt(t3[1].forward, x, ctx)
+            if b3[0] == "ok" and torch.isfinite(b3[1][0]).all() and torch.isfinite(b[1][0]).all() and \
+                    float((b3[1][0] - b[1][0]).abs().max()) > (1e-2 if e["umnn"] else 1e-8) * (1 + float(b3[1][0].abs().max())):
+                ck.finding("roundtrip:deep-copy-shares-state:%s" % e["name"],
+                           "%s: a deep copy that received another checkpoint differs from a never-used instance holding that checkpoint by %.3g"
+                           % (e["name"], float((b3[1][0] - b[1][0]).abs().max())), case)
+                return
+    if not (torch.equal(a[1][0], f0[1][0]) and torch.equal(a[1][1], f0[1][1])) or (a2[0] == "ok" and not torch.equal(a2[1][0], f0[1][0])):
+        ck.finding("roundtrip:deep-copy-shares-state:%s" % e["name"],
+                   "%s: after a deep copy received another checkpoint the ORIGINAL returns different values (max diff %.3g)"
+                   % (e["name"], float((a[1][0] - f0[1][0]).abs().max())), case)
+        return
+    for who, fw, iv in (("copy", b, bi), ("original", a, ai)):
+        if iv[0] != "ok":
+            continue
+        lad = fw[1][1]
+        if not all(bool(torch.isfinite(v).all()) for v in (fw[1][0], lad, iv[1][0], iv[1][1])):
+            continue
+        tol = cond_tol(e, lad) * 10
+        amp = 1.0 + float(torch.exp((-lad / max(1, x[0].numel())).clamp(max=20)).max())
+        err = float((iv[1][0] - x).abs().max())
+        if err > tol * amp * (1 + float(x.abs().max())) or float((lad + iv[1][1]).abs().max()) > (5e-2 if e["umnn"] else 1e-6) * (1 + float(lad.abs().max())):
+            ck.finding("roundtrip:deep-copy-shares-state:%s" % e["name"],
+                       "%s: the %s, called alternately with its twin, no longer inverts itself: max |inverse(forward(x)) - x| = %.3g, "
+                       "log-dets %s / %s" % (e["name"], who, err, lad.tolist()[:2], iv[1][1].tolist()[:2]), case)
+            return
+
+
 def search(ck, tier, seed):
     ents = catalogue.entries(tier) + catalogue.boundary_entries()
+    for e in catalogue.entries(tier):
+        deep_copy_twin(ck, e, seed)
     nseeds = 1 if tier == "quick" else 3
     for e in ents:
         for s in range(nseeds):
